@@ -1,6 +1,105 @@
-(* placeholder while the proofs are being built *)
+(* Property C02 — snapshot and restore reproduce the state exactly, at any point of any history.
+
+   Model: coq/Store/Model.v (the core store: KV + tombstones, sessions + check links, prepared
+   query bindings, nodes / services / checks, the four index rows, and the local lock-delay map)
+   and coq/Snapshot/Model.v (persistCE's record order; the restorers, incl. the
+   preserveIndexes=true paths of ensureNodeTxn / ensureServiceTxn / ensureCheckTxn, the
+   max-merged index rows of the KV / tombstone / session / query restorers and the overwriting
+   IndexRestore).  [li] is SnapshotHeader.LastIndex and [qm] the ModifyIndex of each prepared
+   query; neither is part of the model's state, so every theorem holds for ALL their values.
+
+   Hypotheses, and why they are there:
+   - [wf_log h st0]: Raft indexes are positive and SessionCreate never carries a live session id
+     (the leader's Session.Apply draws UUIDs until one is unused).  See C02_session_id_reuse_refuted.
+   - [Fresh s]: every service check carries its service's CURRENT name.  It fails after a service
+     is re-registered under another name (ensureCheckTxn copies ServiceName/ServiceTags only when
+     the CHECK is written), and then the round trip is FALSE of the faithful model and of the real
+     code: the restore re-copies the name.  C02_roundtrip_refuted is the witness (replayed on the
+     implementation by checks/C02.py: known finding check-service-fields-refreshed-by-restore);
+     C02_roundtrip says what a restore gives in general: [refresh (repl s)].
+
+   The lock-delay map ([lockdelay]) is local to a server; it is not in the snapshot, a restored
+   store starts with an empty one ([repl] erases it), and C01 (FSM/NonInterference.v) shows that
+   it never flows into replicated state or results. *)
 From stdpp Require Import gmap strings.
-From Verif Require Import Store.Model Snapshot.Model.
-Theorem C02_placeholder : restore 0 (snapshot (fun _ => 0%N) st0) = Ok st0.
-Proof. reflexivity. Qed.
-Print Assumptions C02_placeholder.
+From Coq Require Import NArith.
+From Verif Require Import Store.Model Snapshot.Model Snapshot.Defs Snapshot.Proofs Snapshot.Inv Snapshot.Cut Snapshot.Witness.
+Local Open Scope N_scope.
+
+(* the reachable-state invariant: node ids unique, create indexes positive, no orphan services or
+   checks, session-check links exactly as the session rows say, every non-empty table has its
+   index row *)
+Theorem C02_invariant : forall h, wf_log h st0 -> Inv (run h st0).1.
+Proof. intros h Hwf. apply run_Inv; [exact Hwf|exact Inv_st0]. Qed.
+
+Theorem C02_invariant_step : forall idx c s, wf_cmd idx c s -> Inv s -> Inv (apply idx c s).1.
+Proof. exact apply_Inv. Qed.
+
+(* what a restore of a reachable state's snapshot gives, for ANY reachable state *)
+Theorem C02_roundtrip : forall li qm s, Inv s -> restore li (snapshot qm s) = Ok (refresh (repl s)).
+Proof. intros li qm s HI. exact (roundtrip_general li s HI qm). Qed.
+
+(* the exact round trip *)
+Theorem C02_roundtrip_partial : forall li qm s, Inv s -> Fresh s -> restore li (snapshot qm s) = Ok (repl s).
+Proof. exact roundtrip. Qed.
+
+Theorem C02_roundtrip_reachable : forall li qm h,
+  wf_log h st0 -> Fresh (run h st0).1 -> restore li (snapshot qm (run h st0).1) = Ok (repl (run h st0).1).
+Proof. intros li qm h Hwf Hf. apply roundtrip; [apply C02_invariant; exact Hwf|exact Hf]. Qed.
+
+(* the full statement (no [Fresh]) is false *)
+Theorem C02_roundtrip_refuted :
+  exists h, wf_log h st0 /\ let s := (run h st0).1 in exists li qm, restore li (snapshot qm s) <> Ok (repl s).
+Proof. exact roundtrip_refuted. Qed.
+
+(* a live session id reused by SessionCreate (never emitted by the leader) breaks it too *)
+Theorem C02_session_id_reuse_refuted :
+  let s := (run reuse_log st0).1 in
+  Fresh s /\ ~ wf_log reuse_log st0 /\ restore 3 (snapshot (fun _ => 0) s) <> Ok (repl s).
+Proof. exact session_id_reuse_refuted. Qed.
+
+(* every cut of every history: the restored store gives the same results for the rest of the
+   history and ends in the same replicated state as the donor *)
+Theorem C02_cut : forall li qm h k,
+  wf_log h st0 ->
+  let s := (run (firstn k h) st0).1 in
+  Fresh s ->
+  exists r, restore li (snapshot qm s) = Ok r /\ r = repl s /\
+            (run (skipn k h) r).2 = (run (skipn k h) s).2 /\
+            repl (run (skipn k h) r).1 = repl (run (skipn k h) s).1 /\
+            (run h st0).2 = (run (firstn k h) st0).2 ++ (run (skipn k h) r).2 /\
+            repl (run h st0).1 = repl (run (skipn k h) r).1.
+Proof. exact cut. Qed.
+
+(* the modelled reads (KVSGet, KVSList of the whole tree, SessionGet/List, the node / node-services
+   / node-checks reads, PreparedQueryGet): same result, same reported index *)
+Theorem C02_queries : forall li qm s r q,
+  Inv s -> Fresh s -> restore li (snapshot qm s) = Ok r -> run_query q r = run_query q s.
+Proof. exact queries_after_restore. Qed.
+
+(* non-vacuity: a history with two nodes (one with an id), services, service / node / session
+   checks, a session bound to a check and holding a lock, a tombstone, a session-bound prepared
+   query and a committed transaction is well formed, its state is Fresh, its snapshot has 17
+   records, and it restores exactly *)
+Example C02_example :
+  wf_log rich_log st0 /\ Inv rich_state /\ Fresh rich_state /\
+  List.length (snapshot (fun _ => 0) rich_state) = 17%nat /\
+  size (tombs rich_state) = 1%nat /\ kv_session <$> kvs rich_state !! "a/b" = Some "aaaa" /\
+  restore 12 (snapshot (fun _ => 0) rich_state) = Ok (repl rich_state).
+Proof.
+  split; [exact rich_wf|]. split; [apply C02_invariant; exact rich_wf|]. split; [exact rich_fresh|].
+  destruct rich_nontrivial as (_ & Ht & _ & _ & _ & _ & _ & _ & _ & Hk & Hl).
+  split; [exact Hl|]. split; [exact Ht|]. split; [exact Hk|].
+  apply roundtrip; [apply C02_invariant; exact rich_wf|exact rich_fresh].
+Qed.
+
+Print Assumptions C02_invariant.
+Print Assumptions C02_invariant_step.
+Print Assumptions C02_roundtrip.
+Print Assumptions C02_roundtrip_partial.
+Print Assumptions C02_roundtrip_reachable.
+Print Assumptions C02_roundtrip_refuted.
+Print Assumptions C02_session_id_reuse_refuted.
+Print Assumptions C02_cut.
+Print Assumptions C02_queries.
+Print Assumptions C02_example.
